@@ -453,7 +453,53 @@ def plan_merge(run, prop, tier):
     return acc
 
 
+def plan_hex(run, prop, tier):
+    """C15 / C16: HexGen.tla enumerates the bounded input space with the expected outcome of every case; the harness runs
+    every case on the real Hex in each representation (from_slice, from_vec, hand-built Vector, hand-built Bytes with junk
+    padding); outcomes that differ are judged by HexJudge.tla (violation, or the recorded known finding D6)."""
+    acc = Acc()
+    mode = "access" if prop == "C15" else "concat"
+    maxlen, maxidx = (11, 12) if tier == "quick" else (17, 19)
+    cfg = f"INIT Init\nNEXT Next\nCONSTANTS MaxLen = {maxlen} MaxIdx = {maxidx} Mode = \"{mode}\"\nCHECK_DEADLOCK FALSE\n"
+    path, cached = vlib.emit_ts(run, "HexGen", cfg)
+    obs = run.fresh("hexobs", ".ndjson")
+    p = vlib.sh([H, "hexvec", "--vectors", path, "--obs-out", obs], timeout=3000)
+    j = json.loads(p.stdout.strip().splitlines()[-1])
+    if j["oracle_disagreements"]:
+        raise ToolError("Hex.tla disagrees with std's slice semantics (transcription error in the specification): " + p.stdout[-2000:])
+    if j["vectors"] == 0 or (prop == "C15" and j["expected_panics"] == 0):
+        raise ToolError("vacuity: no vectors / no panicking case enumerated")
+    acc.states = j["vectors"]
+    acc.transitions = j["evaluations"]
+    acc.notes["evaluations"] = j["evaluations"]
+    acc.notes["distinct_nontrivial"] = j["vectors"]
+    acc.notes["rule"] = ("one case per (byte string, operation, index/range/operand) enumerated by TLC from HexGen.tla; every case is "
+                         "distinct by construction; evaluations = cases x representations (x representation pairs for concat)")
+    acc.notes["vectors_by_operation"] = j["by_op"]
+    acc.notes["expected_panics"] = j["expected_panics"]
+    acc.notes["outcomes_differing_from_the_specification"] = j["mismatches"]
+    acc.notes["exhaustive"] = True
+    acc.samples = j["samples"]
+    if j["mismatches"]:
+        verdicts = vlib.hex_judge(run, obs)
+        recs = [json.loads(l) for l in open(obs)]
+        acc.traces = len(recs)
+        from collections import Counter
+        acc.notes["judge_verdicts"] = dict(Counter(verdicts))
+        for r, v in zip(recs, verdicts):
+            if v == "ok":
+                continue
+            f = {"prop": prop, "what": f"{r['op']} on {r['rep']}: observed {json.dumps(r['observed'])[:200]}", "source": "E4 Hex vectors",
+                 "replay": {"kind": "hex", "record": r}, "sig": r["op"]}
+            if v == "known:D6":
+                f["key"] = "D6-concat-inline-spill"
+            acc.fails.append(f)
+    return acc
+
+
 PLANS = {p: plan_gc for p in ("C01", "C02", "C03", "C04", "C06")}
+PLANS["C15"] = plan_hex
+PLANS["C16"] = plan_hex
 PLANS["C11"] = plan_merge
 PLANS["C12"] = plan_merge
 PLANS["C13"] = plan_c13
@@ -504,6 +550,9 @@ def finish(run, prop, tier, acc, wall):
            "e1_tlc_model_checking": acc.e1, "e2_product_spec_to_code": acc.e2, "e3_trace_validation_code_to_spec": acc.e3,
            "other_lenses_that_rejected_something": others, "known_findings_seen": sorted(seen_keys)}
     cov.update(acc.notes)
+    if not acc.e1 and not acc.e2 and not acc.e3:
+        for k in ("e1_tlc_model_checking", "e2_product_spec_to_code", "e3_trace_validation_code_to_spec"):
+            cov.pop(k, None)
     vlib.write_evidence(prop, tier, LEVEL.get(prop, "model_checking"), cov, ASSUME_COMMON, wall, len(viol))
     if viol:
         return 1
@@ -514,6 +563,23 @@ def finish(run, prop, tier, acc, wall):
 def replay(run, prop, path):
     j = json.load(open(path))
     rp = j["replay"]
+    if rp.get("kind") == "hex":
+        r = rp["record"]
+        vec = run.fresh("vec", ".out")
+        v = {"op": r["op"], "bytes": r["bytes"], "a": r["a"], "b": r["b"], "other": r["other"], "exp": {"k": "replay"}}
+        open(vec, "w").write(json.dumps(json.dumps(v)) + "\n")
+        obs = run.fresh("hexobs", ".ndjson")
+        vlib.sh([H, "hexvec", "--vectors", vec, "--obs-out", obs], timeout=600)
+        verdicts = vlib.hex_judge(run, obs)
+        recs = [json.loads(l) for l in open(obs)]
+        bad = [(x["rep"], x.get("rep_other"), x["observed"]) for x, v2 in zip(recs, verdicts) if v2 == "violation"]
+        for b in bad:
+            print("still differs:", b)
+        if bad:
+            print(f"VIOLATION property={prop} replay={path}")
+            return 1
+        print(f"replay: property {prop} holds on this case now (verdicts: {sorted(set(verdicts))})")
+        return 0
     cf = run.fresh("calls", ".json")
     json.dump(rp, open(cf, "w"))
     out = run.fresh("replay", ".ndjson")
